@@ -237,6 +237,32 @@ def run(ctx, model_ok):
         mcases.append(f'({clist(tbl)}, {bl}, {r["err_b_code"]}, {vlib.cbytes(r["trace_codes"].encode())}, '
                       f'{c16.coq_pv(r["meta"]["processes"])}, {clist([c16.coq_pv(x) for x in kx["l"]])}, '
                       f'{c16.coq_pv(r["meta"]["images"])}, {c16.coq_pv(r["meta"]["dyld"])}, {logs})')
+    # the command line's processes / kexts / images commands print, as JSON, what the dump's sections hold (the last
+    # processes / images section, the concatenation of the kernel-extension sections)
+    import json as _json
+    creq, cexp = [], []
+    for g in gens[:(20 if ctx.quick() else 300)]:
+        procs, images, kexts = {}, {}, {'Binaries': []}
+        for t, pl in g['blocks']:
+            if t == D.TAG_PROCESSES:
+                procs = plistlib.loads(pl)
+            elif t == D.TAG_IMAGES:
+                images = plistlib.loads(pl)
+            elif t == D.TAG_KERNEL_EXTENSIONS:
+                kexts['Binaries'].extend(plistlib.loads(pl)['Binaries'])
+        for cmd, obj in (('processes', procs), ('kexts', kexts), ('images', images)):
+            creq.append({'file': g['data'].hex(), 'argv': [cmd]})
+            cexp.append((cmd, _json.dumps(obj, indent=4).split('\n'), g))
+    cres = vlib.run_impl('run_cli.py', {'cases': creq}, timeout=3000)['results']
+    ctx.evaluations += len(creq)
+    for (cmd, exp, g), c, rs in zip(cexp, cres, [r for r in res for _ in range(3)]):
+        ctx.count('cli:' + cmd)
+        if rs[0]['err'] is not None:
+            continue                                    # the dump itself is not readable to the end (log records without strings)
+        if c['exc'] is not None or c['lines'] != exp:
+            ctx.failing.append({'input': {'argv': [cmd, '<dump>'], 'file': g['data'].hex()}, 'expected': exp[:12],
+                                'actual': {'lines': c['lines'][:12], 'exc': c['exc']},
+                                'why': f'version-3 dump: the {cmd} command does not print what the file\'s sections hold'})
     # long stretches before the markers: every length around the usual buffer sizes, so that the marker the parser looks
     # for straddles any block boundary a buffered scan might have (implementation against what the file holds)
     lreq, linfo = [], []
